@@ -93,16 +93,23 @@ def server_array(levels, times, curves='lin', release_node=None,
 
 def server_arrays(levels, times, curves='lin', release_node=None,
                   loop_node=None):
-    """List of per channel arrays; levels may contain lists (multichannel)."""
+    """List of per channel arrays; a level, a segment's time or a segment's
+    curve may itself be a list (multichannel): channel c takes element c modulo
+    its length of every such list, the channel count is the longest of them."""
+    n, tms, crv = segments(levels, times, curves)
     chans = 1
-    for lv in levels:
-        if isinstance(lv, (list, tuple)):
-            chans = max(chans, len(lv))
+    for x in list(levels) + tms + crv:
+        if isinstance(x, (list, tuple)):
+            if not x:
+                raise ValueError('empty channel list')
+            chans = max(chans, len(x))
+
+    def pick(x, c):
+        return x[c % len(x)] if isinstance(x, (list, tuple)) else x
     out = []
     for c in range(chans):
-        lv = [x[c % len(x)] if isinstance(x, (list, tuple)) else x
-              for x in levels]
-        out.append(server_array(lv, times, curves, release_node, loop_node))
+        out.append(server_array([pick(x, c) for x in levels], [pick(x, c) for x in tms],
+                                [pick(x, c) for x in crv], release_node, loop_node))
     return out
 
 
